@@ -17,6 +17,12 @@ def get_effects(ctx):
     return ctx._effects
 
 
+def get_ownership(ctx):
+    if not hasattr(ctx, '_ownership'):
+        ctx._ownership = Ownership(ctx)
+    return ctx._ownership
+
+
 def public_roots(ctx, c):
     """(name, Func) for every public name resolvable on class c (methods, property getters/setters)."""
     m = ctx.m
@@ -229,7 +235,14 @@ def rule_A7(ctx):
             elif isinstance(v, ast.Call) and isinstance(v.func, ast.Attribute) and v.func.attr in ('copy', '_copy'):
                 r.ok(x)
             else:
-                r.fail(f.key, x, 'an auto-initialiser branch installs something other than a copying constructor result', loc=f.loc(x))
+                # anything else: the store-provenance analysis must show a store built here (or a cached/copied one), never the caller's buffer
+                O = get_ownership(ctx)
+                pv = O.prov(v, ctx.node(f, 'Bits'))
+                if pv and all(p[0] in ('FRESH', 'CACHED', 'MAYBE_SHARED') for p in pv):
+                    r.ok(x)
+                else:
+                    r.fail(f.key, x, 'an auto-initialiser branch installs something other than a copying constructor result', loc=f.loc(x),
+                           extra={'provenance': sorted(str(p) for p in pv)})
     # a BytesIO is read as a whole, independent of (and without moving) its position
     for g in (f, m.funcs.get('bits:Bits._setauto')):
         if g is None:
@@ -632,7 +645,7 @@ def _judge(p, situation, target_classes):
 def rule_A1(ctx):
     """Every install of a _bitstore: fresh, or shared only where a claim follows / both sides are immutable."""
     m = ctx.m
-    O = Ownership(ctx)
+    O = get_ownership(ctx)
     E = O.E
     r = RuleResult('A1', 'every X._bitstore = V site installs a store nobody mutable shares')
     n_sites = 0
@@ -714,7 +727,7 @@ def rule_A1(ctx):
 def rule_A3(ctx):
     """Flag typestate: a store visible through a mutable-class object is never flagged immutable."""
     m = ctx.m
-    O = Ownership(ctx)
+    O = get_ownership(ctx)
     E = O.E
     r = RuleResult('A3', 'the immutable flag is set only on stores of immutable-class objects (or followed by the claim)')
     n = 0
@@ -794,7 +807,7 @@ def rule_A3(ctx):
 def rule_A4(ctx):
     """Views (results of _create_from_bitstype) are read-only temporaries."""
     m = ctx.m
-    O = Ownership(ctx)
+    O = get_ownership(ctx)
     E = O.E
     r = RuleResult('A4', 'auto-promoted operands are never mutated, re-installed or returned')
     n_views = 0
@@ -872,7 +885,7 @@ def rule_A9(ctx):
 def rule_A10(ctx):
     """A local object that is mutated in place must hold a fresh store (private temporaries really are private)."""
     m = ctx.m
-    O = Ownership(ctx)
+    O = get_ownership(ctx)
     E = O.E
     r = RuleResult('A10', 'in-place effects on local temporaries: the temporary owns a fresh store')
 
